@@ -1,5 +1,5 @@
 (** * C05 -- a register always holds a valid quantum state *)
-From QV Require Import Reg Expr ScalarR C05T.
+From QV Require Import Interp Sym Reg Expr ScalarR C05T C05T2 C05T3.
 
 Theorem C05_invariant_partial : C05_invariant_partial_stmt.
 Proof. exact C05_invariant_partial_proof. Qed.
@@ -20,3 +20,11 @@ Print Assumptions C05_invariant.
 Theorem C05_operators : C05_operators_stmt.
 Proof. exact C05_operators_proof. Qed.
 Print Assumptions C05_operators.
+
+Theorem C05_tree : C05_tree_stmt.
+Proof. exact C05_tree_proof. Qed.
+Print Assumptions C05_tree.
+
+Theorem C05_program : C05_program_stmt.
+Proof. exact C05_program_proof. Qed.
+Print Assumptions C05_program.
